@@ -49,8 +49,8 @@ class Magnet():
         | http://shareaza.sourceforge.net/mediawiki/index.php/Magnet_URI_scheme
     """
 
-    _INFOHASH_REGEX = re.compile(r'^([0-9a-f]{40}|[a-z2-7]{32})\Z', flags=re.IGNORECASE)
-    _XT_REGEX = re.compile(r'^urn:btih:([0-9a-f]{40}|[a-z2-7]{32})\Z', flags=re.IGNORECASE)
+    _INFOHASH_REGEX = re.compile(r'^([0-9a-f]{40}|[a-z2-7]{32})\Z', flags=re.IGNORECASE | re.ASCII)
+    _XT_REGEX = re.compile(r'^urn:btih:([0-9a-f]{40}|[a-z2-7]{32})\Z', flags=re.IGNORECASE | re.ASCII)
 
     def __init__(self, xt, *, dn=None, xl=None, tr=None, xs=None, as_=None, ws=None, kt=None, **kwargs):
         self._tr = utils.MonitoredList(type=utils.URL)
